@@ -305,7 +305,8 @@ class SimpleAsn1Type(Asn1Type):
         return '<%s>' % representation
 
     def __eq__(self, other):
-        return self is other and True or self._value == other
+        # (a schema object has no value to compare, not even with itself)
+        return self is other and self._value is not noValue or self._value == other
 
     def __ne__(self, other):
         return self._value != other
